@@ -604,6 +604,8 @@ func runC06(c *Ctx) {
 	// ---- R06.9
 	c.ruleOpt("R06.10", "what the dispatcher decides from the method descriptor (keep the context for a channel) is read after name and alias resolution")
 	c.descriptorReadAfterResolution("R06.10")
+	c.ruleOpt("R06.11", "whether a call keeps its context (it returns a channel) is decided from the resolved method descriptor, not from a side table keyed by the wire name (an aliased subscription would lose its context at once)")
+	c.keepFlagFromDescriptor("R06.11")
 	c.rule("R06.9", "cancel messages are executed in arrival order with the calls they refer to (one in-order executor; never handled on the reader's goroutine)")
 	c.arrivalOrderRule("R06.9")
 
